@@ -40,7 +40,7 @@ manifest = {
     },
     "engines": [
         {"name": "hypothesis-pbt", "path": "/verif/check.py", "serves_properties": [c["property_id"] for c in checks],
-         "kind_free_text": "Hypothesis 6.168 generators over JSON descriptors (meshes, spaces, operators, expression trees, histories) + itertools enumeration of finite domains, sharded over 16 fresh interpreters; explicit oracles (reference numerics, brute-force models, metamorphic and differential relations); signature-bucketed shrinking; replay files"},
+         "kind_free_text": "Hypothesis 6.168 generators over JSON descriptors (meshes, spaces, operators, expression trees, histories) + itertools enumeration of finite domains, shards packed into at most 6 (quick) or 8 (thorough) fresh interpreters; explicit oracles (reference numerics, brute-force models, metamorphic and differential relations); signature-bucketed shrinking; replay files"},
     ],
     "checks": checks,
     "not_applicable": na,
